@@ -132,7 +132,7 @@ def check_parse(ctx, backend, mode, s):
                     exp = [user, password, host, eport]
                 else:
                     Q = Y.quoters
-                    exp = [Q.REQUOTER(user) if user else user, Q.REQUOTER(password) if password else password, got[2], eport]
+                    exp = [(Q.REQUOTER(user) or None) if user else user, Q.REQUOTER(password) if password else password, got[2], eport]  # an empty user is no user
                     h = host
                     if h is None:
                         exp[2] = got[2] if got[2] in (None, "") else None
